@@ -18,7 +18,7 @@ import random
 
 from . import common
 
-MODULES = ["CoapVerif.Props.C13"]
+MODULES = ["CoapVerif.Props.C13", "CoapVerif.Props.C18Runner"]
 GENERATED = ["TableShape.lean"]
 
 
@@ -383,6 +383,15 @@ def run(ctx):
     art = _prepare(ctx)
     if art.get("test") and art.get("driver"):
         explore(ctx, art)
+    # "removed by the periodic expiry sweep at the latest" presupposes that the sweep reaches the connection: the housekeeping
+    # runners (register / finish / nested-register / tick histories vs Model/Runner.lean) and the servers' connection table
+    # under overlapping Store/Delete - the same sub-check as in C18 and C09
+    from . import c18
+    with common.Lock():
+        rt = common.build_test(ctx, "c18")
+        rd = common.build_driver(ctx, "C18")
+    if rt and rd:
+        c18.runner_check(ctx, rt, rd, random.Random(ctx.seed), ctx.tier == "thorough", "C13", "retains-nothing")
     return common.finish(ctx)
 
 
@@ -392,6 +401,9 @@ def replay(ctx, rep):
     if not lines:
         print("replay file names no failing input:", rep.get("no_longer_checks"))
         return 1
+    if lines[0].startswith("rcfg") or lines[0].startswith("conns"):
+        from . import c18
+        return c18.replay(ctx, rep)
     res = evaluate(ctx, art, lines, tag="replay")
     if res is None:
         print("replay could not run", ctx.broken)
